@@ -21,9 +21,15 @@ _MEASURE = None
 
 
 def _job(args):
-    cell, seed, npts = args
+    cell, seed, npts, aux = args
     try:
-        out = _MEASURE(cell, seed, npts)
+        import warnings
+
+        import numpy as np
+
+        with warnings.catch_warnings(), np.errstate(all="ignore"):
+            warnings.simplefilter("ignore")
+            out = _MEASURE(cell, seed, npts, aux) if getattr(_MEASURE, "wants_aux", False) else _MEASURE(cell, seed, npts)
     except Exception as ex:  # noqa: BLE001
         return {"cell": cell, "crash": f"{type(ex).__name__}: {ex}", "tb": traceback.format_exc()[-1500:]}
     out["cell"] = cell
@@ -39,15 +45,15 @@ def plan_from_tlc(chk, law):
         raise MachineryError(f"LawsPlan failed for {law}: {r.violated} {r.out[-1500:]}")
     plan = json.loads(pf.read_text())
     cells = plan["cells"]
-    if r.distinct != len(cells) or not cells:
-        raise MachineryError(f"plan size mismatch: {r.distinct} initial states, {len(cells)} dumped")
+    if r.distinct != 2 * len(cells) or not cells:
+        raise MachineryError(f"plan size mismatch: {r.distinct} states (2 per cell), {len(cells)} dumped")
     return cells
 
 
 def measure_all(chk, law, cells, measure, npts, procs=16):
     global _MEASURE
     _MEASURE = measure
-    jobs = [(c["cell"], chk.seed, npts) for c in cells]
+    jobs = [(c["cell"], chk.seed, npts, c.get("aux", {})) for c in cells]
     ctx = mp.get_context("fork")
     with ctx.Pool(min(procs, os.cpu_count() or 1)) as pool:
         outs = pool.map(_job, jobs, chunksize=max(1, len(jobs) // (procs * 8)))
@@ -73,6 +79,8 @@ def to_record(law, out):
 
 def fingerprint(verdict, cell):
     parts = [f"{k}={cell[k]}" for k in sorted(cell) if k not in _COARSE and cell[k] not in ("-", 0)]
+    if "bsrc" in cell:
+        parts.append("bsrc=" + ("random-positive" if cell["bsrc"] == 0 else "nf"))
     return f"{verdict} " + " ".join(parts)
 
 
@@ -164,24 +172,19 @@ def run_law(chk, law, measure, *, npts_quick, npts_thorough, switches=(), procs=
         c1[k0]["dec"] = max(0, q0["lo"] - 3)
     else:
         c1[k0]["exp100"] = q0["lo"] - 100
-    b1 = validate(chk, law, c1, "corrupted class (must be rejected)")
-    c2 = copy.deepcopy(recs)
-    del c2[k0]
-    b2 = validate(chk, law, c2, "dropped cell (must be rejected)")
-    c3 = copy.deepcopy(recs)
-    c3.append(copy.deepcopy(recs[k0]))
-    b3 = validate(chk, law, c3, "duplicated cell (must be rejected)")
+    k1 = good[0] if good[0] != k0 else good[-1]
+    c1.append(copy.deepcopy(recs[k1]))  # and a duplicated cell in the same trace
+    b1 = validate(chk, law, c1, "corrupted class + duplicated cell (must be rejected)")
     c4 = copy.deepcopy(recs)
-    c4[k0]["cell"]["nf"] = 9
-    b4 = validate(chk, law, c4, "unplanned cell (must be rejected)")
+    c4[k0]["cell"]["nf"] = 9  # an unplanned cell, which also leaves a planned one missing
+    b4 = validate(chk, law, c4, "unplanned cell / missing cell (must be rejected)")
     base = {(t[1], t[2]) for t in bad}
     ok1 = any(t[1] == k0 + 1 and t[2].startswith(law + ":") for t in b1 if (t[1], t[2]) not in base)
-    ok2 = any("missing-cell" in t[2] for t in b2)
-    ok3 = any("duplicate-cell" in t[2] for t in b3)
+    ok3 = any("duplicate-cell" in t[2] and t[1] == len(c1) for t in b1)
     ok4 = any("unplanned-cell" in t[2] for t in b4) and any("missing-cell" in t[2] for t in b4)
-    if not (ok1 and ok2 and ok3 and ok4):
-        raise MachineryError(f"{law}: binding demonstration failed {ok1, ok2, ok3, ok4}")
-    chk.note("binding_demo", "4 corrupted traces (class, dropped, duplicated, unplanned cell) rejected by LawsTrace")
+    if not (ok1 and ok3 and ok4):
+        raise MachineryError(f"{law}: binding demonstration failed {ok1, ok3, ok4}")
+    chk.note("binding_demo", "corrupted traces (class out of range, duplicated cell, unplanned cell, missing cell) rejected by LawsTrace")
 
     # ---- vacuity guard: with the derivation switched, the clean records must be refuted -----
     sw = {}
@@ -195,3 +198,11 @@ def run_law(chk, law, measure, *, npts_quick, npts_thorough, switches=(), procs=
     if post:
         post(chk, outs)
     return outs
+
+
+def lemma_switch(chk, law, switch):
+    """B1 vacuity guard: with a mutated derivation TLC must refute the lemmas of Laws.tla."""
+    pf = chk.scratch / f"plan-{law}-{switch}.json"
+    chk.tlc("LawsPlan", "LawsPlan.cfg", workers=1, label=f"design switch {switch}: lemmas must fail",
+            env={"LAW": law, "PLAN_FILE": str(pf), "SWITCH": switch}, expect_violation="Lemmas")
+    chk.note("lemma_switch", f"{switch}: LemmaForms refuted by TLC")
